@@ -317,7 +317,7 @@ def rand_val(rng, ty, depth=0):
     if ty == "int":
         return rng.choice([0, 1, -1, 9, 10, -10, 255, 65535, 2 ** 64, -(2 ** 70) - 1, 10 ** 30, rng.randrange(-10 ** 6, 10 ** 6)])
     if ty == "str":
-        return bytes(rng.randrange(256) for _ in range(rng.choice([0, 1, 2, 10]))).hex()
+        return bytes(rng.randrange(256) for _ in range(rng.choice([0, 1, 2, 10, 10, 255, 256, 300]))).hex()
     if ty == "bool":
         return rng.random() < 0.5
     return [rand_val(rng, ty[1], depth + 1) for _ in range(rng.choice([0, 1, 2, 4]))]
@@ -326,7 +326,7 @@ def rand_val(rng, ty, depth=0):
 def gen(rng, tier):
     cases = []
     thorough = tier == "thorough"
-    n = 40 if not thorough else 1200
+    n = 40 if not thorough else 500
     # receive side: families over short multi-box streams (small boxes), with malformed tails
     for _ in range(n):
         s = b"".join(wire(rand_box(rng, small=True)) for _ in range(rng.choice([1, 2, 3])))
@@ -399,6 +399,10 @@ def corpus():
         {"t": "recv", "chunks": ["000161000162000161000163", "0000"]},
         {"t": "arg", "ty": ["list", "str"], "val": ["", "00", ""]},
         {"t": "arg", "ty": "int", "val": -(10 ** 40)},
+        {"t": "arg", "ty": ["list", "str"], "val": ["61" * 256, "", "62" * 255]},
+        {"t": "arg", "ty": ["list", ["list", "int"]], "val": [[10 ** 20] * 15, []]},
+        {"t": "arg", "ty": ["list", "str"], "val": ["00" * 65536]},
+        {"t": "arg", "ty": ["list", "str"], "val": ["00" * 65535]},
         {"t": "argx", "ty": "float", "val": struct.pack("!d", float("nan")).hex()},
     ]
 
@@ -435,6 +439,8 @@ def to_coq(case):
         items = coq_list([f"({coq_bytes(bytes.fromhex(k))}, {coq_bytes(bytes.fromhex(v))})" for k, v in case["items"]], "item")
         return f"Send false {items}"
     if t == "arg":
+        if len(str(case["val"])) > 30000:
+            return None          # very large literals: oracle only
         return f"Arg {_coq_ty(case['ty'])} {_coq_val(case['ty'], case['val'])}"
     return None
 
